@@ -86,10 +86,11 @@ def execute(spec):
 
     arrays = [s.arrays for s in scenes]
     stats["probe_complex"] = int(np.iscomplexobj(np.array(arrays[0].fields.E)))
-    if spec.get("init_seed") is not None:
-        E0, H0 = rp.random_init(scenes[0], spec["init_seed"], scale=0.05)
-        arrays = [rp.set_fields(s, E0, H0) for s in scenes]
     steppers = [dr.Stepper(s) for s in scenes]
+    if spec.get("init_seed") is not None:
+        E0, H0, stats["init_scale"], n = rp.balanced_init(scenes[0], steppers[0], spec["init_seed"])
+        rp.count_steps(stats, n, scenes[0].dt)
+        arrays = [rp.set_fields(s, E0, H0) for s in scenes]
     states = [st.state0(a) for st, a in zip(steppers, arrays)]
     f0 = None
     for t in range(T):
